@@ -409,6 +409,13 @@ ANCHORS = [
     ('M', '[[1,2],[3,4]]^[1,2]', 'MathArrayShapeError'), ('M', '[[1,2],[3,4]]/[1,2]', 'MathArrayShapeError'),
     ('M', '2^[1,2]', 'MathArrayShapeError'), ('M', '[1,2]*[1,2]*[1,2]', 'CalcError'),
     ('M', '[[1,2],[3,4]]+1', 'MathArrayShapeError'),
+    # ONE array operation that raises two floating-point conditions at once (a pole together with 0/0, overflow together
+    # with underflow): still the anticipated division-by-zero / overflow problem (a seeded change keyed the error on
+    # numpy's combined status flags and fell through to the generic error)
+    ('M', '[0,1]/0', 'CalcZeroDivisionError'), ('M', '[0,3]/(1-1)', 'CalcZeroDivisionError'),
+    ('M', '[0,1]/(zqx-zqx)', 'CalcZeroDivisionError'), ('M', '[[0,1],[1,0]]/0', 'CalcZeroDivisionError'),
+    ('M', '[1,2]/0', 'CalcZeroDivisionError'), ('M', '(1e300+1e-300*i)*[1e300,1e-300]', 'CalcOverflowError'),
+    ('M', '[1e300,1]*1e300', 'CalcOverflowError'),
 ]
 
 
